@@ -25,10 +25,12 @@ def shards(tier, seed):
     if tier == "quick":
         out = [{"kind": "dfs", "depth": 9, "a": a, "b": b, "first": f, "pre": pre} for (a, b) in pairs[:2] for f in range(3) for pre in (0, 6, 17)]
         out += [{"kind": "random", "n": 1250, "part": p} for p in range(4)]
+        out += [{"kind": "long", "steps": 300000, "part": p} for p in range(2)]
     else:
         out = [{"kind": "dfs", "depth": 13, "a": a, "b": b, "first": f, "second": g, "pre": pre} for (a, b) in pairs[:2] for f in range(3) for g in range(3) for pre in (0, 9)]
         out += [{"kind": "dfs", "depth": 11, "a": a, "b": b, "first": f, "pre": pre} for (a, b) in pairs[2:] for f in range(3) for pre in (0, 5, 18, 27)]
         out += [{"kind": "random", "n": 12500, "part": p} for p in range(16)]
+        out += [{"kind": "long", "steps": 6000000, "part": p} for p in range(8)]
     return out
 
 
@@ -97,6 +99,31 @@ def run(shard, rec, tier, seed):
         for _ in range(200):
             h = [rng.randrange(3) for _ in range(shard["depth"] + 7)]
             replay(rec, PS, ss, [("next",) if o == 0 else ("set", "account", shard["a"]) if o == 1 else ("set", "init7", shard["b"]) for o in h], 0)
+    elif shard["kind"] == "long":
+        # "stay in lockstep indefinitely": one sequencer driven for a very long history (past 2^16, 253^2,
+        # 10^5 ... requests) with rare updates; every value compared with the counter model
+        rng = random.Random("C13-long-%d-%d" % (seed, shard["part"]))
+        start = ss.SequenceStart.zero()
+        seq = PS(start)
+        sv, n = start.value, 0
+        steps = shard["steps"]
+        next_update = rng.randrange(1, 5000)
+        for i in range(steps):
+            if i == next_update:
+                st = make_start(ss, rng.choice(["account", "init7", "ping", "simple"]), rng.choice([0, 3, 240, 1757, -5, rng.randrange(0, 1757)]))
+                seq.set_sequence_start(st)
+                sv = st.value
+                next_update = i + rng.randrange(1, 20000)
+            got = seq.next_sequence()
+            if got != sv + n % 10:
+                rec.violation("lockstep", "request #%d of a long history returned %r, expected start %d + %d" % (n, got, sv, n % 10), {"requests": n, "start": sv})
+                break
+            n += 1
+        rec.case(("long", shard["part"], steps))
+        rec.count("lockstep-next", n)
+        rec.count("longest-history-requests", 0)
+        rec.seen("long-histories", "%d requests" % n)
+        rec.sample({"long_history_requests": n})
     else:
         rng = random.Random("C13-rand-%d-%d" % (seed, shard["part"]))
         for _ in range(shard["n"]):
